@@ -1,0 +1,23 @@
+//! Verification hooks, only compiled with the `koto_verif` feature
+//!
+//! A schedule point is called before a `KCell` is borrowed, i.e. between critical sections and
+//! never inside one. By default it does nothing; a test harness can install a function for the
+//! current thread that yields or spins to widen the windows between critical sections.
+
+use std::cell::Cell;
+
+thread_local! {
+    static SCHEDULE_POINT: Cell<Option<fn()>> = const { Cell::new(None) };
+}
+
+/// Sets (or clears) the schedule point function of the current thread
+pub fn set_schedule_point(f: Option<fn()>) {
+    SCHEDULE_POINT.with(|s| s.set(f));
+}
+
+#[inline]
+pub(crate) fn schedule_point() {
+    if let Some(f) = SCHEDULE_POINT.with(|s| s.get()) {
+        f()
+    }
+}
